@@ -188,21 +188,22 @@ emits two events.  In the source's `case StatusFailed` the `EventMemberLeave` se
 `EventMemberReap`), and nothing but `return true` follows: the emitted history is
 …, leave, reap — the order of the status changes, which is what the pipeline theorems take as
 their input (the harness emits exactly this history for the `prune` / `forceprune` ops). -/
+-- (Gen.NodeShapes is alpha-normalised: recv = s, p0 = leaveMsg (handlePrune: p0 = member), v1 = member)
 theorem C16_leave_is_sent_before_prune_reaps :
     SerfModel.Gen.NodeShapes.leaveCaseFailed =
-      ["member.Status = StatusLeft",
-       "s.failedMembers = removeOldMember(s.failedMembers, member.Name)",
-       "s.leftMembers = append(s.leftMembers, member)",
+      ["v1.Status = StatusLeft",
+       "recv.failedMembers = removeOldMember(recv.failedMembers, v1.Name)",
+       "recv.leftMembers = append(recv.leftMembers, v1)",
        -- (1) the leave of the failed→left change …
-       "if s.config.EventCh != nil { s.config.EventCh <- MemberEvent{Type: EventMemberLeave, Members: []Member{member.Member}} }",
+       "if recv.config.EventCh != nil { recv.config.EventCh <- MemberEvent{Type: EventMemberLeave, Members: []Member{v1.Member}} }",
        -- (2) … then the prune, whose eraseNode sends the reap
-       "if leaveMsg.Prune { s.handlePrune(member) }",
+       "if p0.Prune { recv.handlePrune(v1) }",
        "return true"] ∧
-    SerfModel.Gen.NodeShapes.handlePruneStmts.getLast? = some "s.eraseNode(member)" ∧
+    SerfModel.Gen.NodeShapes.handlePruneStmts.getLast? = some "recv.eraseNode(p0)" ∧
     -- the other cases send nothing themselves: their only event is the reap of the prune
     SerfModel.Gen.NodeShapes.leaveCaseAlive =
-      ["member.Status = StatusLeaving", "if leaveMsg.Prune { s.handlePrune(member) }", "return true"] ∧
-    SerfModel.Gen.NodeShapes.leaveCaseLeavingLeft = ["if leaveMsg.Prune { s.handlePrune(member) }", "return true"] :=
+      ["v1.Status = StatusLeaving", "if p0.Prune { recv.handlePrune(v1) }", "return true"] ∧
+    SerfModel.Gen.NodeShapes.leaveCaseLeavingLeft = ["if p0.Prune { recv.handlePrune(v1) }", "return true"] :=
   ⟨rfl, rfl, rfl, rfl⟩
 
 /-- The coalescer stages of the pipeline model are the source's: the member coalescer stores
